@@ -10,7 +10,11 @@
 //! pass, below the document's nesting for the requests that shall be refused cheaply.  The counters are reset before and read after the request:
 //!   counters = [visit_selection, visit_field, recursive_depth, max_directives, find_conflicts]
 //! The harness only drives and records; TLC (spec/gql/WorkTrace.tla) computes sizes, bounds and the expected
-//! work.  Wall time is recorded, never judged.
+//! work.  Wall time is recorded, never judged.  cpuUs is the CPU time of this thread over the request
+//! (CLOCK_THREAD_CPUTIME_ID: time spent waiting for a core on a loaded machine is not in it); a request that took more
+//! than 20 ms is run again (at most twice) and the smallest value is recorded -- the counters are those of the first run.
+//! It stands for the work no counter sees (the rules' own searches over the spread graph); WorkTrace bounds it with a
+//! margin of several orders of magnitude.  A hook with more than five counters is passed through as it is (`take()`).
 use async_graphql::Request;
 use serde_json::{Value as J, json};
 use vh::io::*;
@@ -28,6 +32,17 @@ fn snapshot() -> [u64; 5] {
     use std::sync::atomic::Ordering::Relaxed;
     [h::VISIT_SELECTION.load(Relaxed), h::VISIT_FIELD.load(Relaxed), h::RECURSIVE_DEPTH.load(Relaxed), h::MAX_DIRECTIVES.load(Relaxed), h::FIND_CONFLICTS.load(Relaxed)]
 }
+
+#[repr(C)]
+struct Timespec { tv_sec: i64, tv_nsec: i64 }
+unsafe extern "C" { fn clock_gettime(clk: i32, ts: *mut Timespec) -> i32; }
+/// CPU time consumed by the calling thread, in microseconds (Linux: CLOCK_THREAD_CPUTIME_ID = 3)
+fn thread_cpu_us() -> u64 {
+    let mut ts = Timespec { tv_sec: 0, tv_nsec: 0 };
+    if unsafe { clock_gettime(3, &mut ts) } != 0 { tool_error("clock_gettime(CLOCK_THREAD_CPUTIME_ID) failed"); }
+    ts.tv_sec as u64 * 1_000_000 + ts.tv_nsec as u64 / 1000
+}
+const CPU_AGAIN_US: u64 = 20_000;
 
 fn build(recursive: i64, directives: i64) -> fam::ExecSchema {
     let mut b = fam::builder().limit_complexity(200).limit_depth(12);
@@ -50,7 +65,7 @@ fn main() {
             if snap.iter().any(|c| *c > WORK_CAP) {
                 let mut cur = current.lock().unwrap();
                 if let Some((mut case, t0)) = cur.take() {
-                    case["obs"] = json!({"counters": snap, "wallUs": t0.elapsed().as_micros() as u64, "refused": false, "aborted": true, "message": "", "problem": ""});
+                    case["obs"] = json!({"counters": snap, "wallUs": t0.elapsed().as_micros() as u64, "cpuUs": 0, "refused": false, "aborted": true, "message": "", "problem": ""});
                     let mut w = out.lock().unwrap();
                     if let Some(mut w) = w.take() { w.write(&case); w.finish(); }
                     println!("{{\"aborted\": true}}");
@@ -72,19 +87,33 @@ fn main() {
         let req_data = Req::new(json!({}));
         let op_name = case["doc"]["ops"][0]["name"].as_str().unwrap_or("").to_string();
         let mut request = Request::new(text).data(req_data.clone());
-        if !op_name.is_empty() { request = request.operation_name(op_name); }
+        if !op_name.is_empty() { request = request.operation_name(op_name.clone()); }
+        let again = request.query.clone();
         let _ = async_graphql::verif_hooks::take();
         let t0 = std::time::Instant::now();
         *current.lock().unwrap() = Some((case.clone(), t0));
+        let c0 = thread_cpu_us();
         let result = exec::catch(|| futures_executor::block_on(schema.execute(request)));
+        let mut cpu = thread_cpu_us() - c0;
         let wall = t0.elapsed().as_micros() as u64;
+        let counters = async_graphql::verif_hooks::take().to_vec();
+        // a slow request is measured again: the smallest CPU time of up to three runs is recorded
+        let mut runs = 1;
+        while cpu > CPU_AGAIN_US && runs < 3 {
+            let mut rq = Request::new(again.clone()).data(Req::new(json!({})));
+            if !op_name.is_empty() { rq = rq.operation_name(op_name.clone()); }
+            let c1 = thread_cpu_us();
+            let _ = exec::catch(|| futures_executor::block_on(schema.execute(rq)));
+            cpu = cpu.min(thread_cpu_us() - c1);
+            runs += 1;
+        }
         let held = current.lock().unwrap().take();
         if held.is_none() { loop { std::thread::sleep(std::time::Duration::from_secs(1)); } }   // the watchdog is writing this request
-        let counters = async_graphql::verif_hooks::take();
+        let _ = async_graphql::verif_hooks::take();
         case["obs"] = match result {
-            Ok(r) => json!({"counters": counters, "wallUs": wall, "refused": !r.errors.is_empty() && req_data.take_log().is_empty(), "aborted": false,
+            Ok(r) => json!({"counters": counters, "wallUs": wall, "cpuUs": cpu, "refused": !r.errors.is_empty() && req_data.take_log().is_empty(), "aborted": false,
                             "message": r.errors.first().map(|e| e.message.clone()).unwrap_or_default(), "problem": ""}),
-            Err(p) => json!({"counters": counters, "wallUs": wall, "refused": false, "aborted": false, "message": "", "problem": format!("panic: {p}")}),
+            Err(p) => json!({"counters": counters, "wallUs": wall, "cpuUs": cpu, "refused": false, "aborted": false, "message": "", "problem": format!("panic: {p}")}),
         };
         out.lock().unwrap().as_mut().unwrap().write(&case);
         n += 1;
